@@ -144,6 +144,32 @@ def sweep(ctx, n):
                     bad(f"field-depends-on-input-order:{kind}", "H outside depends on face order / winding / vertex numbering", {"vertices": v2.tolist(), "faces": f2.tolist()})
                 if not np.allclose(magpy.getJ(m, inside_pt), Jref):
                     bad(f"inside-depends-on-input-order:{kind}", "inside/outside decision depends on face order / winding", {"vertices": v2.tolist(), "faces": f2.tolist()})
+            # the same body handed over as a triangle SOUP (from_mesh / from_triangles: vertices are recovered by merging equal
+            # corners), in small or large length units, with one vertex at the origin whose zeros carry mixed signs (a mirrored
+            # half, negated coordinates, STL data): equal points are one vertex, the body is closed, connected, and is the body
+            # the triangles describe
+            if kind != "wedge":
+                ssc = rng.choice([1.0, 1e-3, 1e-5, 2e-6, 1e3])
+                v0 = (v - v[rng.randrange(len(v))]) * ssc
+                v2, f2 = scramble(rng, v0, f)
+                soup = np.array(v2[f2], dtype=float)
+                zero = soup == 0.0
+                soup[zero & (nps.random(soup.shape) < 0.5)] = -0.0
+                via = rng.choice(["from_mesh", "from_triangles"])
+                kinds[f"soup:{via}"] = kinds.get(f"soup:{via}", 0) + 1
+                if via == "from_mesh":
+                    ms = magpy.magnet.TriangularMesh.from_mesh(mesh=soup, polarization=pol, check_selfintersecting="ignore")
+                else:
+                    ms = magpy.magnet.TriangularMesh.from_triangles(triangles=[magpy.misc.Triangle(vertices=t_, polarization=pol) for t_ in soup], polarization=pol, check_selfintersecting="ignore")
+                refs = magpy.magnet.TriangularMesh(vertices=v0, faces=f, polarization=pol, check_selfintersecting="ignore")
+                obs_s = (obs - v[0] * 0 - (v - v0 / ssc)[0]) * ssc
+                Hs, Hr = ms.getH(obs_s), refs.getH(obs_s)
+                if (ms.status_open, ms.status_disconnected) != (False, False) or len(ms.vertices) != len(np.unique(f)):
+                    bad(f"status:soup:{via}", f"{via} of a closed connected body ({len(np.unique(f))} distinct corners, one at the origin with mixed signed zeros, lengths x {ssc:g}): "
+                        f"open={ms.status_open}, disconnected={ms.status_disconnected}, {len(ms.vertices)} vertices", {"mesh": soup.tolist(), "signed_zeros": True})
+                elif not np.allclose(Hs, Hr, rtol=1e-8, atol=1e-10 * np.max(np.abs(Hr))):
+                    bad(f"field:soup:{via}", f"{via}: H of the body built from its triangles differs from the body built from vertices and faces (lengths x {ssc:g}, "
+                        f"rel. dev. {float(np.max(np.abs(Hs - Hr)) / np.max(np.abs(Hr))):.2g})", {"mesh": soup.tolist(), "scale": ssc})
             if kind == "box":
                 # a box with one corner cut off by a tiny facet (0.1% … 1% of the box), that facet listed FIRST and wound outwards:
                 # the seed of the orientation sweep is a facet whose edges are short compared with the mesh
@@ -170,6 +196,41 @@ def sweep(ctx, n):
                 if not outward_ok(mc):
                     bad("orientation:chamfer", f"a box with a corner cut off by a facet of {eps_c:.2g} box sizes, listed first and wound outwards: faces are not all outwards after reorientation",
                         {"vertices": vc.tolist(), "faces": fc.tolist()})
+            if kind == "prism":
+                # a prism one of whose side walls is a SLIVER (two base corners 1e-2 … 1e-4 of the size apart), that wall's two facets
+                # listed first and starting with their short edge, wound outwards: the seed of the orientation sweep must not be
+                # judged by a check point that falls inside the ray test's own touch tolerance (repaired in /repo ed093b8)
+                kk = rng.choice([3, 4, 5])
+                ang = np.sort(nps.uniform(0, 2 * np.pi, kk))
+                ang = np.concatenate([ang, [ang[-1] + 10.0 ** nps.uniform(-4, -2)]])
+                ring = np.stack([np.cos(ang), np.sin(ang)], axis=1)
+                nn = len(ring)
+                vp = np.array([[x_, y_, z_] for z_ in (-0.5, 0.5) for x_, y_ in ring]) * nps.uniform(0.5, 2)
+                fp = [[nn - 1 + nn, nn - 1, nn - 2], [nn - 1 + nn, nn - 2, nn - 2 + nn]]  # the sliver wall between ring corners nn-2 and nn-1
+                for k_ in range(nn):
+                    k2 = (k_ + 1) % nn
+                    if k_ != nn - 2:
+                        fp += [[k_, k2, nn + k2], [k_, nn + k2, nn + k_]]
+                fp += [[0, k_ + 1, k_] for k_ in range(1, nn - 1)] + [[nn, nn + k_, nn + k_ + 1] for k_ in range(1, nn - 1)]
+                fp = np.array(fp)
+                cenp = vp.mean(axis=0)
+                for j_ in range(len(fp)):  # all outwards; the two sliver facets start with their short (vertical edge is long) edge
+                    t_ = vp[fp[j_]]
+                    if np.dot(np.cross(t_[1] - t_[0], t_[2] - t_[0]), t_.mean(axis=0) - cenp) < 0:
+                        fp[j_] = fp[j_][::-1]
+                for j_ in (0, 1):
+                    t_ = vp[fp[j_]]
+                    k0 = int(np.argmin([np.linalg.norm(t_[k_] - t_[(k_ + 1) % 3]) for k_ in range(3)]))
+                    fp[j_] = fp[j_][[k0, (k0 + 1) % 3, (k0 + 2) % 3]]
+                if rng.random() < 0.5:
+                    sel = nps.random(len(fp)) < 0.3
+                    sel[0] = False
+                    fp[sel] = fp[sel][:, ::-1]
+                mp = magpy.magnet.TriangularMesh(vertices=vp, faces=fp, polarization=pol, check_selfintersecting="ignore")
+                kinds["sliver-first"] = kinds.get("sliver-first", 0) + 1
+                if (mp.status_open, mp.status_disconnected) != (False, False) or not outward_ok(mp):
+                    bad("orientation:sliver-first", "a prism with a sliver side wall whose facets are listed first, start with their short edge and are wound outwards: "
+                        f"open={mp.status_open}, disconnected={mp.status_disconnected}, faces are not all outwards after reorientation", {"vertices": vp.tolist(), "faces": fp.tolist()})
             # derived meshes
             fdel = np.delete(f, rng.randrange(len(f)), axis=0)
             m = magpy.magnet.TriangularMesh(vertices=v, faces=fdel, polarization=pol, check_open="ignore", check_disconnected="ignore", reorient_faces="ignore", check_selfintersecting="ignore")
